@@ -40,7 +40,7 @@ ANCHORS = [
 REQUIRED = ["invocations_judged", "runs_judged", "feasibility_judged", "binding_invocations", "acceptance_judged", "bounds_judged",
             "estimator_bound_binding", "estimator_bound_sid_differs_from_station", "amp_periods_binding", "inactive_station_zero_checked",
             "algo:greedy", "algo:rr", "sort:fcfs", "sort:lcfs", "sort:edf", "sort:llf", "sort:lrpt", "est:None", "est:rampdown", "est:fixed",
-            "unint:on", "unint:off", "evse:EVSE", "evse:FR", "mixed_sign_network"]
+            "unint:on", "unint:off", "evse:EVSE", "evse:FR", "mixed_sign_network", "invocations_after_an_edit"]
 BUDGET_S = {"quick": 270, "thorough": 3300}
 
 
@@ -91,6 +91,8 @@ def cases(seed, tier):
         if i % 2:
             d["sessions"] = gen.dense_sessions(rng, d["network"], sid_other_p=0.25)
             d["recompute"] = []
+        if rng.random() < 0.25:
+            d["edits"] = gen.rand_edits(rng, d["network"], max(s_["departure"] for s_ in d["sessions"]))
         out.append({"desc": d})
     return out
 
@@ -131,6 +133,9 @@ def run_case(case, obs):
         wraps.append(Wrap(est, "get_maximum_rates", after=after_est))
     for w in wraps:
         w.install()
+    ed = simrun.install_edits(sim, d.get("edits"))
+    if d.get("edits"):
+        obs.ev("runs_with_mid_run_constraint_edits")
     probe = SimProbe(sim, snapshots=False)
     probe.step_limit = simrun.last_event_ts(d) + 4
     probe.attach()
@@ -138,6 +143,8 @@ def run_case(case, obs):
     probe.detach()
     for w in reversed(wraps):
         w.remove()
+    if ed is not None:
+        ed.remove()
 
     obs.evals = 0
     obs.ev("runs_judged")
@@ -162,6 +169,10 @@ def run_case(case, obs):
             continue
         obs.evals += 1
         obs.ev("invocations_judged")
+        if d.get("edits"):
+            ids, A, L, angles, names = oracles.dense_rows(gen.network_at(d["network"], d["edits"], t))
+            if any(e["after"] < t for e in d["edits"]):
+                obs.ev("invocations_after_an_edit")
         w_ = dict(wit, period=t, schedule=out, pre_state=pre, estimator_bounds=bounds)
         # 1. shape
         if set(out) != set(ids) or any(len(v) != 1 for v in out.values()):
